@@ -121,7 +121,12 @@ class UdpServerThread(Thread):
                 self.ctxt.log.exception("%s:%d unable to encode packet" % addr)
                 continue
 
-            self.sock.sendto(datagram, addr)
+            try:
+                self.sock.sendto(datagram, addr)
+            except OSError as e:
+                # the datagram is lost. one peer with an unusable address
+                # (e.g. source port 0) must not stop the server
+                self.ctxt.log.warning("%s:%d unable to send datagram: %s" % (*addr, e))
 
     def update_stats(self):
         self.perf_data.append(self.perf)
